@@ -695,7 +695,7 @@ func (messagesMapper) Save(msg *types.Message, attachmentURLs []string, readBySe
 		}
 	}
 
-	if len(attachmentURLs) > 0 {
+	if len(attachmentURLs) > 0 && mediaHandler != nil {
 		var attachments []string
 		for _, url := range attachmentURLs {
 			// Convert attachment URLs to file IDs.
@@ -1033,9 +1033,9 @@ func (fileMapper) DeleteUnused(olderThan time.Time, limit int) error {
 	if err != nil {
 		return err
 	}
-	if len(toDel) > 0 {
+	if mh := Store.GetMediaHandler(); mh != nil && len(toDel) > 0 {
 		logs.Warn.Println("deleting media", toDel)
-		return Store.GetMediaHandler().Delete(toDel)
+		return mh.Delete(toDel)
 	}
 	return nil
 }
@@ -1043,6 +1043,10 @@ func (fileMapper) DeleteUnused(olderThan time.Time, limit int) error {
 // LinkAttachments connects earlier uploaded attachments to a message or topic to prevent it
 // from being garbage collected.
 func (fileMapper) LinkAttachments(topic string, msgId types.Uid, attachments []string) error {
+	if mediaHandler == nil {
+		// Media storage is not configured, nothing can be linked.
+		return nil
+	}
 	// Convert attachment URLs to file IDs.
 	var fids []string
 	for _, url := range attachments {
